@@ -23,7 +23,7 @@ RULE = ('histories of parse(document, context, flags) calls sharing one process,
 ASSUMPTIONS = ['the freeze() flag set by the walker is excluded from the database snapshot',
                'fresh results come from subprocesses started with the same PYTHONHASHSEED']
 NSHARDS = 16
-RECIPES = ['default', 'every', 'extended']
+RECIPES = ['default', 'every', 'extended', 'extra']
 
 SUSPICIOUS = [
     ['every', '\\mv{a{b}c}d'],
@@ -39,6 +39,9 @@ SUSPICIOUS_MORE = [
     ['every', '\\me^{a}_{b}'],
     ['every', '\\me_{b}x\\me^c'],
     ['every', '\\many(a(b)c)\\manyo<x>{y}\\manyo{z}'],
+    ['extra', '\\mcomma{a,b{c,d},e}x\\mcommak{,a,}'],
+    ['extra', '\\mtack{a}\\ta{x}\\tb y\\tb{z}w\\mempty+\\mempty'],
+    ['extra', '\\mchars{a{b}%c\n}\\me^a_b'],
 ]
 POOL = SUSPICIOUS + SUSPICIOUS_MORE + [
     ['every', '\\mt+\\mt \\md<a>\\md x'],
